@@ -257,6 +257,10 @@ func TestC16(t *testing.T) {
 		return fenCase{Input: fen}
 	}, propC16Fen)
 
+	defer func() {
+		r.Inflight(true)
+		runC16Uci(r)
+	}()
 	hx.Sub(r, "fen-legal", r.N(8000, 80000), func(t *rapid.T) fenCase {
 		p := hx.GenPosition(t)
 		// also the short forms
